@@ -41,6 +41,27 @@ def flip_args(rng, vals, tys, p=0.6):
     return out
 
 
+class RecordedArgs(Exception):
+    pass
+
+
+def recorded_args_ok(tr, passed):
+    """leaves of tr.get_args() (positional arguments, then empty kwargs; Cond: check first) equal the
+    passed arguments, up to the broadcasting a vectorised trace applies to unmapped arguments"""
+    import numpy as np
+    rec = jax.tree_util.tree_leaves(tr.get_args())
+    want = jax.tree_util.tree_leaves(passed)
+    if len(rec) != len(want):
+        return True        # a recording convention this harness does not know: not judged
+    for r, w_ in zip(rec, want):
+        try:
+            if not bool(np.all(np.asarray(r) == np.asarray(w_))):
+                return False
+        except ValueError:
+            continue           # shapes not comparable: not judged
+    return True
+
+
 def make_case(rng, kind, opts):
     pg = ProgGen(rng, max_depth=int(opts.get("depth", 2)),
                  allow=tuple(opts.get("allow", "dist,fn,cond,vmap,scan").split(",")),
@@ -154,9 +175,13 @@ def make_case(rng, kind, opts):
             ops.append(op)
             box = {}
 
-            def f():
+            def f(passed=to_impl_args(new_args)):
                 t2, w, d = fn()
                 box["t"], box["d"] = t2, d
+                if not recorded_args_ok(t2, passed):
+                    # the trace must be coherent with respect to its *recorded* arguments (C05): a trace that
+                    # records other arguments than the ones the move ran with is reported as a failed move
+                    raise RecordedArgs("trace records arguments other than those passed to the move")
                 return {"tr": obs_trace(g, t2), "w": canon_val(w), "d": canon_cm(g, d)}
             o = run_guard(f)
             obs.append(o)
@@ -233,9 +258,13 @@ def rerun(c):
                 fn = (lambda: gf.update(tr, last, *a))
             box = {}
 
-            def f():
+            def f(passed=to_impl_args(new_args)):
                 t2, w, d = fn()
                 box["t"], box["d"] = t2, d
+                if not recorded_args_ok(t2, passed):
+                    # the trace must be coherent with respect to its *recorded* arguments (C05): a trace that
+                    # records other arguments than the ones the move ran with is reported as a failed move
+                    raise RecordedArgs("trace records arguments other than those passed to the move")
                 return {"tr": obs_trace(g, t2), "w": canon_val(w), "d": canon_cm(g, d)}
             o = run_guard(f)
             obs.append(o)
